@@ -681,3 +681,57 @@ def pauli_measurement_decomposition_rule(ctx, rid):
                 elif not ok_inv:
                     msg = f'invert mask {inv} does not match the sign of the observable'
                 ctx.ob(rid, key, not msg, msg, ci.mod.rel, fn.lineno, construct=f'{ci.qual}._decompose_:{len(names)}q')
+
+
+def swap_shortcut_rule(ctx, rid):
+    """SimulationProductState._act_on_fallback_ relabels the sub-states instead of applying the gate: only sound for a gate that is exactly SWAP."""
+    import numpy as np
+    from .. import fdx
+    from . import c03
+    repo = ctx.repo
+    ctx.rule(rid, 'relabelling shortcut: the guard under which SimulationProductState swaps the bookkeeping of two qubits instead of simulating the gate (interpreted for probe '
+             'exponents and global shifts) holds only when SwapPowGate(exponent, global_shift) is exactly the SWAP matrix', floor=20, style='FDX')
+    ps = repo.cls('cirq.sim.simulation_product_state.SimulationProductState')
+    fn = repo.method(ps.qual, '_act_on_fallback_')
+    guards = [i for i in ast.walk(fn) if isinstance(i, ast.If) and 'SwapPowGate' in ast.unparse(i.test)]
+    if not guards:
+        raise AnalysisError('SimulationProductState._act_on_fallback_: SWAP shortcut vanished')
+    g = guards[0]
+    subj = None
+    for c in ast.walk(g.test):
+        if isinstance(c, ast.Call) and call_name(c) == 'isinstance' and isinstance(c.args[0], ast.Name):
+            subj = c.args[0].id
+    if subj is None:
+        raise AnalysisError('SWAP shortcut: isinstance subject not found')
+    comps, _ = c03._components(repo, repo.cls('cirq.ops.swap_gates.SwapPowGate'), 2)
+    swap = sum(np.exp(1j * np.pi * 1 * t) * m for t, m in comps)
+
+    class G:
+        def __init__(self, e, s):
+            self.exponent = self._exponent = e
+            self.global_shift = self._global_shift = s
+    for e in (1, 3, -1, 5, 0.75, 0.9, 1.25, -0.75, 2.6, 0.5, 1.5, 2, 0, 1.0000001):
+        for s in (0, 0.5, 1.0):
+            gm = G(e, s)
+
+            def attr_hook(node, it, _g=gm):
+                if isinstance(node.value, ast.Name) and node.value.id == 'ops':
+                    return node.attr
+                try:
+                    v = it.ev(node.value)
+                except fdx.Unsupported:
+                    return NotImplemented
+                if isinstance(v, G) and hasattr(v, node.attr):
+                    return getattr(v, node.attr)
+                return NotImplemented
+            it = fdx.NumInterp({subj: gm, 'isinstance': lambda v, t: isinstance(v, G) and 'SwapPowGate' in (t if isinstance(t, tuple) else (t,))}, attr_hook=attr_hook)
+            try:
+                taken = bool(it.ev(g.test))
+            except fdx.Unsupported as ex:
+                raise AnalysisError(f'SWAP shortcut guard is outside the interpretable subset: {ex}')
+            u = sum(np.exp(1j * np.pi * e * (t + s)) * m for t, m in comps)
+            exact = np.allclose(u, swap, atol=1e-6)
+            ok = (not taken) or exact
+            ctx.ob(rid, f'{ps.qual}._act_on_fallback_:swap-shortcut:e={e}:shift={s}', ok,
+                   '' if ok else f'SwapPowGate(exponent={e}, global_shift={s}) is not the SWAP matrix, yet the product state only exchanges the bookkeeping of the two qubits',
+                   ps.mod.rel, g.lineno, construct=f'{ps.qual}._act_on_fallback_:swap-shortcut')
